@@ -14,13 +14,14 @@ class CanCustomize(object):
     def __propagate_name(self, kwargs):
         if "name" in kwargs:
             return
-        # A bound callable has no name of its own; it inherits the name
-        # of the executor it is bound to.
-        for obj in (self, getattr(self, "_BoundCallable__executor", None)):
-            for name_attr in ("_name", "_CustomizableThreadPoolExecutor__name"):
-                if hasattr(obj, name_attr):
-                    kwargs["name"] = getattr(obj, name_attr)
-                    return
+        # A bound callable has no name of its own (attributes it took over
+        # from the wrapped function don't count); it inherits the name of
+        # the executor it is bound to.
+        obj = getattr(self, "_BoundCallable__executor", self)
+        for name_attr in ("_name", "_CustomizableThreadPoolExecutor__name"):
+            if hasattr(obj, name_attr):
+                kwargs["name"] = getattr(obj, name_attr)
+                return
 
     def with_retry(self, *args, **kwargs):
         from .executors import Executors
